@@ -11,7 +11,9 @@ import (
 	"math/big"
 	"os"
 	"os/exec"
+	"sort"
 	"strings"
+	"sync"
 	"sync/atomic"
 	"time"
 )
@@ -26,6 +28,8 @@ type SolverStats struct {
 }
 
 var GStats SolverStats
+
+var scopedDefs = os.Getenv("VS_SCOPED") != ""
 
 var oneShotMode = os.Getenv("VS_ONESHOT") != ""
 
@@ -125,8 +129,116 @@ func emitDefs(w io.Writer, order []*Term, emitted map[int]bool, declared map[str
 	}
 }
 
+// conjuncts flattens nested conjunctions.
+func conjuncts(t *Term, out []*Term) []*Term {
+	for t.Op == OpAnd {
+		out = conjuncts(t.Args[1], out)
+		t = t.Args[0]
+	}
+	if !t.IsTrue() {
+		out = append(out, t)
+	}
+	return out
+}
+
+var varsMemo sync.Map // term id → []int (sorted ids of free variables and UF applications' names hashed as negative ids)
+
+func varsOf(t *Term) []int {
+	if v, ok := varsMemo.Load(t.ID); ok {
+		return v.([]int)
+	}
+	var r []int
+	switch t.Op {
+	case OpConst:
+	case OpVar:
+		r = []int{t.ID}
+	default:
+		set := map[int]bool{}
+		for _, a := range t.Args {
+			for _, v := range varsOf(a) {
+				set[v] = true
+			}
+		}
+		if t.Op == OpUF {
+			// all applications of one UF are related through congruence
+			h := 0
+			for _, c := range t.Name {
+				h = h*131 + int(c)
+			}
+			if h > 0 {
+				h = -h
+			}
+			set[h-1] = true
+		}
+		r = make([]int, 0, len(set))
+		for v := range set {
+			r = append(r, v)
+		}
+		sort.Ints(r)
+	}
+	varsMemo.Store(t.ID, r)
+	return r
+}
+
+// sliceFor returns the conjuncts of pc that share variables (transitively) with c.
+// Sound for infeasibility: if slice ∧ c is unsat then pc ∧ c is unsat.
+func sliceFor(pcs []*Term, c *Term) []*Term {
+	var cs []*Term
+	for _, p := range pcs {
+		cs = conjuncts(p, cs)
+	}
+	if len(cs) <= 1 {
+		return cs
+	}
+	live := map[int]bool{}
+	for _, v := range varsOf(c) {
+		live[v] = true
+	}
+	used := make([]bool, len(cs))
+	var out []*Term
+	for changed := true; changed; {
+		changed = false
+		for i, cj := range cs {
+			if used[i] {
+				continue
+			}
+			vs := varsOf(cj)
+			hit := len(vs) == 0
+			for _, v := range vs {
+				if live[v] {
+					hit = true
+					break
+				}
+			}
+			if hit {
+				used[i] = true
+				out = append(out, cj)
+				for _, v := range vs {
+					if !live[v] {
+						live[v] = true
+						changed = true
+					}
+				}
+			}
+		}
+	}
+	return out
+}
+
+// Feasible decides (advisorily) whether pc ∧ c is satisfiable, using constraint independence and the model cache.
+func (s *Solver) Feasible(timeoutMs int, pc []*Term, c *Term) string {
+	if c.IsFalse() {
+		return "unsat"
+	}
+	sl := sliceFor(pc, c)
+	if os.Getenv("VS_SLOW") != "" {
+		fmt.Fprintf(os.Stderr, "slice %d of %d conjuncts, vars(c)=%d\n", len(sl), len(pc), len(varsOf(c)))
+	}
+	return s.CheckSat(timeoutMs, append(sl, c)...)
+}
+
 // CheckSat asks the incremental solver whether the conjunction is satisfiable.
-// Returns "sat", "unsat" or "unknown".
+// Returns "sat", "unsat" or "unknown". Definitions are sent inside the push scope (cone of influence only).
 func (s *Solver) CheckSat(timeoutMs int, as ...*Term) string {
 	a := AndN(as...)
 	if a.IsTrue() {
@@ -144,40 +256,31 @@ func (s *Solver) CheckSat(timeoutMs int, as ...*Term) string {
 		s.cache[a.ID] = "sat"
 		return "sat"
 	}
-	if oneShotMode {
-		keep := ""
-		if os.Getenv("VS_SLOW") != "" {
-			keep = fmt.Sprintf("/tmp/dump/q-%d.smt2", a.ID)
-		}
-		qr := RunOneShot("z3", (timeoutMs+999)/1000, a, nil, keep)
-		if keep != "" && qr.Seconds < 1 {
-			os.Remove(keep)
-		}
-		res := qr.Verdict
-		if res == "error" {
-			fmt.Fprintln(os.Stderr, "solver error:", firstLine(qr.Raw))
-			res = "unknown"
-		}
-		atomic.AddInt64(&GStats.Queries, 1)
-		atomic.AddInt64(&GStats.TimeNanos, int64(qr.Seconds*1e9))
-		switch res {
-		case "sat":
-			atomic.AddInt64(&GStats.Sat, 1)
-		case "unsat":
-			atomic.AddInt64(&GStats.Unsat, 1)
-		default:
-			atomic.AddInt64(&GStats.Unknown, 1)
-		}
-		if d := qr.Seconds; d > 1 && os.Getenv("VS_SLOW") != "" {
-			fmt.Fprintf(os.Stderr, "slow one-shot query %.1fs verdict=%s root=t%d\n", d, res, a.ID)
-		}
-		s.cache[a.ID] = res
-		return res
-	}
 	t0 := time.Now()
 	var buf bytes.Buffer
-	emitDefs(&buf, CollectDAG([]*Term{a}), s.emitted, s.declared, &s.vars)
-	fmt.Fprintf(&buf, "(set-option :timeout %d)\n(push)\n(assert %s)\n(check-sat)\n(echo \"<<model>>\")\n%s(pop)\n(echo \"<<done>>\")\n", timeoutMs, ref(a), s.getValueCmd())
+	var vars []*Term
+	if scopedDefs {
+		fmt.Fprintf(&buf, "(set-option :timeout %d)\n(push)\n", timeoutMs)
+		emitDefs(&buf, CollectDAG([]*Term{a}), map[int]bool{}, map[string]bool{}, &vars)
+	} else {
+		order := CollectDAG([]*Term{a})
+		emitDefs(&buf, order, s.emitted, s.declared, nil)
+		for _, t := range order {
+			if t.Op == OpVar {
+				vars = append(vars, t)
+			}
+		}
+		fmt.Fprintf(&buf, "(set-option :timeout %d)\n(push)\n", timeoutMs)
+	}
+	fmt.Fprintf(&buf, "(assert %s)\n(check-sat)\n(echo \"<<model>>\")\n", ref(a))
+	if len(vars) > 0 {
+		buf.WriteString("(get-value (")
+		for _, v := range vars {
+			buf.WriteString(smtName(v.Name) + " ")
+		}
+		buf.WriteString("))\n")
+	}
+	buf.WriteString("(pop)\n(echo \"<<done>>\")\n")
 	if s.log != nil {
 		s.log.Write(buf.Bytes())
 	}
@@ -221,18 +324,18 @@ func (s *Solver) CheckSat(timeoutMs int, as ...*Term) string {
 	if res == "sat" && !strings.Contains(modelText.String(), "(error") {
 		cm := &cachedModel{m: map[string]*big.Int{}, memo: map[int]*big.Int{}}
 		parseValues(modelText.String(), cm.m)
-		if len(cm.m) > 0 || len(s.vars) == 0 {
-			s.models = append(s.models, cm)
-			if len(s.models) > 6 {
-				s.models = s.models[1:]
-			}
+		s.models = append(s.models, cm)
+		if len(s.models) > 8 {
+			s.models = s.models[1:]
 		}
 	}
 	atomic.AddInt64(&GStats.Queries, 1)
 	atomic.AddInt64(&GStats.TimeNanos, int64(time.Since(t0)))
-	if d := time.Since(t0); d > time.Second && os.Getenv("VS_SLOW") != "" {
-		fmt.Fprintf(os.Stderr, "slow query %.1fs verdict=%s defs=%d bytes root=t%d\n", d.Seconds(), res, buf.Len(), a.ID)
-		os.WriteFile(fmt.Sprintf("/tmp/dump/slow-%d.smt2", a.ID), buf.Bytes(), 0o644)
+	if d := time.Since(t0); os.Getenv("VS_SLOW") != "" {
+		if d > 300*time.Millisecond {
+			os.WriteFile(fmt.Sprintf("/tmp/dump/inc-%d.smt2", a.ID), buf.Bytes(), 0o644)
+		}
+		fmt.Fprintf(os.Stderr, "query %.1fs verdict=%s defs=%d bytes root=t%d\n", d.Seconds(), res, buf.Len(), a.ID)
 	}
 	switch res {
 	case "sat":
